@@ -87,10 +87,6 @@ def inI64 (i : Int) : Bool := decide (-two63 ≤ i ∧ i < two63)
 /-- an integer result, under the "no overflow" guard -/
 def intRes (i : Int) : Out Val := if inI64 i then .val (.int i) else .unspec
 
-def zeros : Nat → Bytes
-  | 0 => []
-  | n + 1 => 48 :: zeros n
-
 /-- positional form of a finite non-zero double with 10⁻⁴ ≤ |x| < 10⁶: shortest round-trip digits,
     integral values without ".0"; everything else is unspecified -/
 def showFloat (x : F64) : Out Bytes :=
@@ -105,9 +101,10 @@ def showFloat (x : F64) : Out Bytes :=
       let sign : Bytes := if x.sign then [45] else []
       let body : Bytes :=
         if 0 < dp then
-          (if nd ≤ dp then digs ++ zeros (dp - nd).toNat
-           else digs.take dp.toNat ++ [46] ++ digs.drop dp.toNat)
-        else [48, 46] ++ zeros (-dp).toNat ++ digs
+          (if nd ≤ dp then digs ++ F64.zeros (dp - nd).toNat
+           else digs.take dp.toNat ++ 46 :: digs.drop dp.toNat)
+        else if nd == 0 then [48]
+        else [48, 46] ++ F64.zeros (-dp).toNat ++ digs
       .val (sign ++ body)
 
 def bytesLe : Bytes → Bytes → Bool
